@@ -373,6 +373,36 @@ def check_classifier(ctx):
                        "`return (seq, seq_type)` on path [%s]" % p.describe(3)):
             ctx.ok("C03-a", fn, "returns (seq, seq_type)")
     ctx.instances_floor("C03-a/classifier", n, 7, "normal paths of the classifier")
+    # a branch that already is an object of one of the sequence classes keeps its class: every class of CLASS_KIND -- in
+    # particular every class the duck-typing part may *construct* -- has its own isinstance test, and no duck-typing
+    # test is reached before all of them have failed (Sequence(Sum()) is a 'sequence' branch, not a fill_compute one)
+    tested = {}
+    for t in A.walk_local(fn):
+        if isinstance(t, ast.Call) and A.call_name(t) == "isinstance" and len(t.args) == 2 and A.src(t.args[0]) == seqp:
+            c = res.canon(t.args[1])
+            if c in CLASS_KIND:
+                tested[c] = t
+    for c, kind in sorted(CLASS_KIND.items()):
+        ctx.check("C03-a", c in tested, fn, "_get_seq_with_type has no `isinstance(%s, %s)` test: an object that already is a %s is "
+                  "re-classified by what its elements can do (a Sequence around a fill/compute element becomes a fill_compute branch "
+                  "and is computed once at the end instead of being run on every block)" % (seqp, c.rsplit(".", 1)[-1], c.rsplit(".", 1)[-1]),
+                  detail="explicit type test for %s" % c.rsplit(".", 1)[-1], construct="explicit-test:%s" % c.rsplit(".", 1)[-1])
+    n_duck = 0
+    for p in P.paths_of(fn):
+        for t, pol in p.literals():
+            if isinstance(t, ast.Call) and res.canon(t.func) in PRED_KIND:
+                n_duck += 1
+                refuted = {res.canon(x.args[1]) for x, pl in p.literals() if pl is False and isinstance(x, ast.Call)
+                           and A.call_name(x) == "isinstance" and len(x.args) == 2 and A.src(x.args[0]) == seqp}
+                # the explicit chain may be summarised by the kind variable being still empty
+                via_kvar = any(A.src(x) == kvar and pl is False for x, pl in p.literals())
+                missing = [c for c in CLASS_KIND if c not in refuted]
+                ok = not missing or (via_kvar and all(c in tested for c in CLASS_KIND))
+                ctx.check("C03-a", ok, t, "the duck-typing test `%s` is reached although the branch has not been found to be none of "
+                          "%s" % (A.short(t, 40), ", ".join(c.rsplit(".", 1)[-1] for c in missing)),
+                          detail="duck typing only after the explicit type tests failed", construct="duck-before-explicit:%s" % A.call_name(t), path=p)
+                break
+    ctx.instances_floor("C03-a/duck", n_duck, 2, "classifier paths through a duck-typing test")
     # predicates used by the classifier require the capabilities of their kind
     for pred, caps in (("is_fill_compute_el", ("fill", "compute")), ("is_fill_request_el", ("fill", "request")), ("is_run_el", ("run",))):
         pf = ctx.tree.func("lena.core.check_sequence_type", pred)
@@ -1006,6 +1036,7 @@ def check(ctx):
 SP = "lena/core/split.py"
 ZP = "lena/flow/zip.py"
 VARIANTS = [
+    M("classifier-sequence-test-removed", "lena/core/split.py", "    elif isinstance(seq, sequence.Sequence):\n        seq_type = \"sequence\"\n", "", ["C03-a"]),
     M("final-missing-sequence", SP, "            elif seq_type == \"sequence\":\n                if flow_was_empty:\n                    for val in seq.run([]):\n                        yield val\n",
       "", ["C03-a", "C03-e"]),
     M("request-on-fill-compute", SP, "                    if stopped:\n                        for result in seq.compute():", "                    if stopped:\n                        for result in seq.request():", ["C03-b"]),
